@@ -5,6 +5,8 @@ CONSTANTS
   Emit = TRUE
 INVARIANT InvAlgRefinesRef
 INVARIANT InvSubOnlyIsRef
+INVARIANT InvParentLookupIsRef
+INVARIANT InvSpellingIrrelevantWhereFree
 INVARIANT InvSetOnlyIsRef
 INVARIANT InvLastWins
 INVARIANT EmitCase
